@@ -129,7 +129,7 @@ LoanClosure_OK(s, s2, c) ==
         /\ (~l.open => l2 = l)                                            \* closed loans never change
         /\ (l.open /\ ~l2.open =>
               \/ c.kind = "repay_loan" /\ c.arg = j /\ c.ok
-                 /\ l2.paid = Only(Cond(l.sym).isym, InterestOf(s, l, s.clock))
+                 /\ l2.paid = Only(l.c.isym, InterestOf(s, l, s.clock))
                  /\ s2.bal = Plus(s.bal, Plus(Only(l.sym, -l.amount), Neg(l2.paid)))
                  /\ s2.bor = Plus(s.bor, Only(l.sym, -l.amount))
               \/ c.kind \in {"bar", "cancel_order"}
@@ -137,7 +137,7 @@ LoanClosure_OK(s, s2, c) ==
                        /\ o.ar /\ o.filled > 0 /\ ~IsOpen(o) /\ j \in o.loans
                        /\ (i > Len(s.orders) \/ IsOpen(s.orders[i]))
                        /\ l.sym = (IF o.op = "buy" THEN BaseOf(o.pair) ELSE QuoteOf(o.pair))
-                 /\ l2.paid[Cond(l.sym).isym] = InterestOf(s2, l, s2.clock))
+                 /\ l2.paid[l.c.isym] = InterestOf(s2, l, s2.clock))
   /\ \A j \in (Len(s.loans) + 1)..Len(s2.loans) :                          \* created and closed in one step: rollback
         ~s2.loans[j].open => c.kind = "create_order" /\ ~c.ok /\ s2.loans[j].paid = D0
   /\ (c.kind = "repay_loan" /\ c.ok => ~s2.loans[c.arg].open)
